@@ -1711,6 +1711,17 @@ package mcp
 //@   assert at call newRequest: @addressed-to-the-subscriber $0 == local(sess) && $1 == lastResult(makeParamsCall, 0)
 //@   assert at call handleNotify: @every-delivery-uses-the-fan-out-context calls(bound) == 1 && $0 == callResult(bound, 1, 0) && $1 == method && $2 == lastResult(mkreq, 0)
 //@   track makeParams as makeParamsCall
+// unmarshalParams of every method (the closure built by newMethodInfo): parameters that do not decode are rejected as
+// invalid params (-32602), never dropped or passed on; when decoding succeeded any rejection is an invalid request
+// (-32600: required params missing or null); a rejection hands back no params.
+//@ func newMethodInfo$1 [C02]
+//@   track internal/json.Unmarshal as dec
+//@   assume nowrapinvalidparams != "1"   // default debug setting
+//@   modifies *
+//@   ensures @undecodable-params-are-invalid-params calls(dec) == 1 && callResult(dec, 1, 0) != nil ==> result.1 != nil && errIs(result.1, jsonrpc2.ErrInvalidParams)
+//@   ensures @any-other-rejection-is-an-invalid-request result.1 != nil && (calls(dec) == 0 || callResult(dec, 1, 0) == nil) ==> errIs(result.1, jsonrpc2.ErrInvalidRequest)
+//@   ensures @present-params-are-decoded-once calls(dec) <= 1 && (m != nil ==> calls(dec) == 1 && callArg(dec, 1, 0) == m)
+//@   ensures @a-rejection-hands-back-no-params result.1 != nil ==> result.0 == nil
 // notifySessions (generic fan-out helper, C18): one delivery attempt per session, whatever the outcome of the
 // earlier ones - a failing or closing session does not starve the sessions after it.
 //@ func notifySessions [C18, C10]
